@@ -798,6 +798,13 @@ def runt_corpus(proto, cmd):
         ext_be = b'\x00\x00\xff\xff\xff\x00\x05\xfb' + body + dcs + b'\x00'      # PN53x: big endian length
         ext_le = b'\x00\x00\xff\xff\xff\x05\x00\xfb' + body + dcs + b'\x00'      # RC-S380: little endian length
         out += _prefixes(normal) + _prefixes(ext_be) + _prefixes(ext_le)
+        # longer pieces could be completed to (or, RC-S380: taken for) a well-formed answer whose invented payload
+        # makes no sense for the command; they carry a response code that can not match instead
+        body = bytes([tfi, rc ^ 0x55, 0, 1, 2])
+        dcs = bytes([(256 - sum(body)) & 255])
+        normal = b'\x00\x00\xff\x05\xfb' + body + dcs + b'\x00'
+        ext_be = b'\x00\x00\xff\xff\xff\x00\x05\xfb' + body + dcs + b'\x00'
+        ext_le = b'\x00\x00\xff\xff\xff\x05\x00\xfb' + body + dcs + b'\x00'
         out += [normal[:-1], normal[:-2], ext_be[:-1], ext_be[:-2], ext_le[:-1], ext_le[:-3]]
         out += [b'\x00\x00\xff\xff\xff' + bytes([x]) for x in (0x00, 0x01, 0x7F, 0x80, 0xFE, 0xFF)]
         out += [b'\x00\x00\xff\xff\xff' + H(x) for x in ('0000', '0001', '0100', '01ff', 'ffff', '00ff',
@@ -816,7 +823,11 @@ def runt_corpus(proto, cmd):
     else:
         apdu = bytes([0xD5, rc, 0, 1, 2, 0x90, 0x00])
         good = b'\x80' + struct.pack('<I', len(apdu)) + bytes(5) + apdu
-        out += _prefixes(good, 13) + [good[:-1], good[:-2], good + b'\x00']
+        out += _prefixes(good, 13)
+        rc = rc ^ 0x55          # see above: complete envelopes carry a response code that can not match
+        apdu = bytes([0xD5, rc, 0, 1, 2, 0x90, 0x00])
+        good = b'\x80' + struct.pack('<I', len(apdu)) + bytes(5) + apdu
+        out += [good[:-1], good[:-2], good + b'\x00']
         out += [b'\x80' + struct.pack('<I', n) + bytes(5) + apdu for n in (0, 1, 6, 8, 0xFFFFFFFF)]
         out += [b'\x81' + good[1:], b'\x80' + struct.pack('<I', 0) + bytes(5), b'\x80' + struct.pack('<I', 2) + bytes(5) + b'\x90\x00',
                 b'\x80' + struct.pack('<I', 3) + bytes(5) + b'\xd5\x90\x00', b'\x80' + struct.pack('<I', 4) + bytes(5) + bytes([0xD5, rc, 0x90, 0x00]),
